@@ -141,6 +141,29 @@ func c05RunConc(t rt.TB, c c05Conc) {
 			if class == "output-matches-no-arrival-order" && c05OneMissing(got, admTraces) {
 				class = "one-emission-overtaken-by-the-terminal"
 			}
+			// BufferWhen: the same loss when the overtaken buffer was the one taken by the
+			// boundary's own completion (no admissible output has it as an extra emission):
+			// the delivered values are the source's values minus one contiguous run.
+			if class == "output-matches-no-arrival-order" && c.Op == "BufferWhen" && got.End != 0 {
+				var flat, src []int
+				for _, b := range got.Vals {
+					if xs, ok := b.([]any); ok {
+						for _, x := range xs {
+							if n, ok := x.(int); ok {
+								flat = append(flat, n)
+							}
+						}
+					}
+				}
+				for _, e := range c.Scripts[0] {
+					if e.K == 'N' {
+						src = append(src, e.V)
+					}
+				}
+				if len(flat) < len(src) && isContiguousGap(flat, src) {
+					class = "one-emission-overtaken-by-the-terminal"
+				}
+			}
 			rt.Report(t, rt.Failure{Property: "C05", Check: "concurrent-arrival", Op: c.Op, Class: class, Msg: fmt.Sprintf("%s with sources %v driven concurrently (repetition %d): output %s is not the definition's output for any interleaving; admissible: %v", c.Op, wordsString(c.Scripts), rep, got, keys), Case: c})
 			return
 		}
@@ -381,4 +404,19 @@ func isSubsequence(sub, full []int) bool {
 		}
 	}
 	return j == len(sub)
+}
+
+// isContiguousGap: sub is full with exactly one contiguous, non-empty run removed.
+func isContiguousGap(sub, full []int) bool {
+	i := 0
+	for i < len(sub) && sub[i] == full[i] {
+		i++
+	}
+	gap := len(full) - len(sub)
+	for j := i; j < len(sub); j++ {
+		if sub[j] != full[j+gap] {
+			return false
+		}
+	}
+	return gap > 0
 }
